@@ -47,6 +47,34 @@ func entryLitIsDelete(info *types.Info, entryT types.Type, e ast.Expr) (isDel st
 	return isDel, hasValue, true
 }
 
+// entryDeleteIs: the isDelete field of the Entry literal e is the variable flag.
+func entryDeleteIs(info *types.Info, entryT types.Type, e ast.Expr, flag types.Object) bool {
+	e = ast.Unparen(e)
+	if u, isU := e.(*ast.UnaryExpr); isU && u.Op == token.AND {
+		e = u.X
+	}
+	cl, isCL := e.(*ast.CompositeLit)
+	if !isCL || info.TypeOf(cl) != entryT {
+		return false
+	}
+	st := entryT.Underlying().(*types.Struct)
+	for i, el := range cl.Elts {
+		var name string
+		var v ast.Expr
+		if kv, isKV := el.(*ast.KeyValueExpr); isKV {
+			if id, isID := kv.Key.(*ast.Ident); isID {
+				name, v = id.Name, kv.Value
+			}
+		} else if i < st.NumFields() {
+			name, v = st.Field(i).Name(), el
+		}
+		if name == "isDelete" && v != nil && prog.IdentObj(info, v) == flag {
+			return true
+		}
+	}
+	return false
+}
+
 func init() {
 	register(&Obligation{ID: "C07.l", Props: []string{"C07", "C03", "C17"}, Template: "result-discipline",
 		Desc: "sst.(*Table).Get: inside the bracket scan a record is skipped only when its key differs from the wanted key; a matching tombstone is returned as a deleted entry (so it masks older levels) and a matching put as an entry with its value; running off the end of the entries while reading the next key (io.EOF) means 'not found', not an error",
@@ -266,7 +294,27 @@ func init() {
 					switch ev.Kind {
 					case pathsim.EvCall:
 						if ev.Call != nil && prog.IdentObj(c.Info, ev.Call.Fun) == yield && len(ev.Call.Args) == 1 {
-							isDel, hasValue, ok := entryLitIsDelete(c.Info, entryT, ev.Call.Args[0])
+							arg := ev.Call.Args[0]
+							viaVar := false
+							if id, isID := ast.Unparen(arg).(*ast.Ident); isID {
+								// entry := &Entry{...}; (entry.value = v;) yield(entry)
+								if d := deref(c.Info, id); ast.Unparen(d) != ast.Expr(id) {
+									arg, viaVar = d, true
+								}
+							}
+							isDel, hasValue, ok := entryLitIsDelete(c.Info, entryT, arg)
+							if ok && isDel == "?" && entryDeleteIs(c.Info, entryT, arg, deleted) {
+								// isDelete: wasDeleted — the record's own flag, whatever it is on this path
+								switch s.V[aDeleted] {
+								case pathsim.True:
+									isDel = "true"
+								case pathsim.False:
+									isDel = "false"
+								}
+							}
+							if viaVar && s.B == 1 {
+								hasValue = true
+							}
 							switch {
 							case !ok:
 								c.Violate(ev.Pos, "[yield-shape] ScanPrefix yields something other than an sst.Entry literal")
@@ -293,8 +341,20 @@ func init() {
 							}
 							c.Violate(ev.Pos, "[not-yielded] the scan moves on past a %s whose key has the prefix without yielding it: a dropped tombstone lets an older value from another table reappear in the merged scan, a dropped put loses the entry", which)
 						}
-						s.A = 0
+						s.A, s.B = 0, 0
 						return []pathsim.State{s}
+					case pathsim.EvAssign:
+						// entry.value = <the value read>
+						for i, l := range ev.Lhs {
+							if sel, isSel := ast.Unparen(l).(*ast.SelectorExpr); isSel && sel.Sel.Name == "value" && len(ev.Rhs) == len(ev.Lhs) {
+								if t := c.Info.TypeOf(sel.X); t != nil && derefType(t) == entryT {
+									if tv, has := c.Info.Types[ev.Rhs[i]]; !has || !tv.IsNil() {
+										s.B = 1
+										return []pathsim.State{s}
+									}
+								}
+							}
+						}
 					}
 					return nil
 				},
